@@ -33,11 +33,16 @@ def series_pair(draw, max_len=8, ndim=1, min_len=1, regimes=('L', 'L', 'F', 'S')
     """Two series + the regime label. Regime S derives the second series from the first."""
     regime = draw(st.sampled_from(regimes))
     if regime != 'S':
-        l1 = draw(st.integers(min_len, max_len))
+        hi = max_len
+        if draw(st.integers(0, 23)) == 0:
+            hi = 4 * max_len     # occasional long series: code paths that only engage beyond the usual sizes
+            l1 = draw(st.integers(max_len + 1, hi))
+        else:
+            l1 = draw(st.integers(min_len, max_len))
         if draw(st.integers(0, 3)) == 0:
             l2 = l1
         else:
-            l2 = draw(st.integers(max(min_len, l1 - 6), min(max_len, l1 + 6)))
+            l2 = draw(st.integers(max(min_len, l1 - 6), min(hi, l1 + 6)))
         s1 = draw(series(l1, l1, regime, ndim))
         s2 = draw(series(l2, l2, regime, ndim))
         return s1, s2, regime
@@ -268,4 +273,6 @@ def classes_dtw(case):
         out.append('inner=' + case['inner'])
     if w is not None and min(l2 + 1, abs(l1 - l2) + 2 * (w - 1) + 3) != l2 + 1:
         out.append('rolling-buffer-rolls')
+    if max(l1, l2) > 16:
+        out.append('long')
     return out
